@@ -16,12 +16,13 @@ func init() { register("C05", checkC05) }
 func checkC05(c *Ctx) {
 	c.Rule("C05.R1", "sweep before select: in every backend's dequeue step the expired-lease release dominates candidate selection (SQLite: unless the sweep throttle says no); the throttle clock advances only when a sweep is granted, and a sweep is refused only because (now - last sweep) is below the interval")
 	c.Rule("C05.R2", "no hidden filter: candidate selection conjuncts are exactly {state=queued, next_run_at<=now, [route], [target]}, ordered by next_run_at, received_at with the batch as LIMIT; the memory candidate loop skips only on those conditions")
-	c.Rule("C05.R3", "visibility times: nack stores next_run_at = now+delay with delay clamped >= 0; lease expiry and operator requeue/resume store next_run_at = now")
+	c.Rule("C05.R3", "visibility times: nack stores next_run_at = now+delay with delay clamped >= 0; lease expiry and operator requeue/resume store next_run_at = now; the dispatcher hands the Store, singly or batched, each message's own delay (batches are grouped by delay)")
 	c.Rule("C05.R4", "the constant bounding the SQLite sweep throttle is <= 10ms")
 	c.Rule("C05.R5", "dispatcher: every dequeued lease reaches a lease action or, on stop, the requeue of the remaining slice; the classification result flows into the apply call")
 	checkSweepBeforeSelect(c, "C05.R1")
 	checkCandidateFilter(c, "C05.R2")
 	checkVisibilityTimes(c, "C05.R3")
+	checkActionOwnParameter(c, "C05.R3")
 	checkSweepConstant(c, "C05.R4")
 	checkDispatcherNoDrop(c, "C05.R5")
 }
